@@ -215,6 +215,8 @@ func ruleHlogIsolation(r *Run, p *Prog) {
 	collect(nh)
 	found := false
 	for _, f := range inner {
+		// private helpers (`attachLoggerCopy(r, log)`) are part of the handler body
+		f = p.View(f, "", nil)
 		eachInstr(f, func(b *ssa.BasicBlock, i int, in ssa.Instruction) {
 			c, ok := in.(*ssa.Call)
 			if ok && staticCallee(&c.Call) == wc {
@@ -633,6 +635,37 @@ func sameProxy(v ssa.Value, f *ssa.Function, served ssa.Value, servedIn *ssa.Fun
 	a, b := strip(v), strip(served)
 	if f == servedIn {
 		return a == b
+	}
+	// the per-request state lives in a struct (`a := access{lw: WrapWriter(w), …}`): the proxy is
+	// field F of an object built in the serving function and handed, as a parameter, to the
+	// reporting function (call, defer); F is stored once, by the serving function
+	if faA, ok := a.(*ssa.FieldAddr); ok {
+		faB, ok := b.(*ssa.FieldAddr)
+		if !ok || fieldVar(faA) != fieldVar(faB) {
+			return false
+		}
+		bound := false
+		for i, prm := range f.Params {
+			if faA.X != ssa.Value(prm) {
+				continue
+			}
+			eachInstr(servedIn, func(_ *ssa.BasicBlock, _ int, in ssa.Instruction) {
+				if cc := callCommon(in); cc != nil && !cc.IsInvoke() && staticCallee(cc) == f && i < len(cc.Args) && cc.Args[i] == faB.X {
+					bound = true
+				}
+			})
+		}
+		stores := 0
+		for _, g := range []*ssa.Function{f, servedIn} {
+			eachInstr(g, func(_ *ssa.BasicBlock, _ int, in ssa.Instruction) {
+				if st, ok := in.(*ssa.Store); ok {
+					if fa, ok := st.Addr.(*ssa.FieldAddr); ok && fieldVar(fa) == fieldVar(faB) {
+						stores++
+					}
+				}
+			})
+		}
+		return bound && stores == 1
 	}
 	if fv, ok := a.(*ssa.FreeVar); ok {
 		// binding in the parent's MakeClosure
